@@ -234,7 +234,11 @@ func (i *Index) SkipUnless(patterns []string) {
 	for _, e := range i.Entries {
 		var include bool
 		for _, pattern := range patterns {
-			if strings.HasPrefix(e.Name, pattern) {
+			// A pattern selects a directory: match whole path
+			// components, not string prefixes ("a" must not
+			// select "ab/x").
+			dir := strings.TrimSuffix(pattern, "/")
+			if e.Name == dir || strings.HasPrefix(e.Name, dir+"/") {
 				include = true
 				break
 			}
